@@ -559,7 +559,9 @@ class Union(Structure, metaclass=UnionMetaType):
             raise NotImplementedError("Modifying a dynamic union is not yet supported")
 
         super().__setattr__(attr, value)
-        self._rebuild(attr)
+        if attr in self.__class__.lookup:
+            self._rebuild(attr)
+        # Otherwise this is a field of an anonymous structure, which already rebuilt the union through its proxy
 
     def _rebuild(self, attr: str) -> None:
         if (cur_buf := getattr(self, "_buf", None)) is None:
